@@ -7,10 +7,46 @@ tie:   the real qmail-smtpd (stand-in qmail-queue recording every submission) on
        in order) and exit status against the extracted session model; an independent Python reference
        of the documented behaviour is the oracle."""
 import json, sys, os, subprocess
-import vlib
+import vlib, re
 from smtp_common import *
 
 PID = "C08"
+
+def addrparse_stream(ck, rb, drv, mism):
+    """addrparse() of qmail-smtpd.c (function harness, localiphost set and unset, the host's own addresses as ipme_init() finds them)
+    = the model's addrparse = the Gallina generated from today's addrparse() by tools/c2gallina.py (with every array access checked)."""
+    try:
+        h = rb.harness("h_addrparse2", "qmail-smtpd"); gen = vlib.build_driver("GEN")
+    except (vlib.HarnessBuildError, RuntimeError) as e:
+        mism.append(dict(kind="translator", what="h_addrparse2.c or the generated addrparse() does not build", log=str(e)[-600:])); return
+    rng = ck.rng
+    own, _, _ = vlib.run_lines(h, ["ipme"])
+    own = own[0].strip()
+    if not re.match(r"^(-|([0-9a-f]{8})+)$", own):
+        mism.append(dict(kind="harness", what="ipme_init() failed in the harness", got=own[:100])); return
+    ips = [] if own == "-" else [bytes.fromhex(own[i:i + 8]) for i in range(0, len(own), 8)]
+    lits = [b"[%d.%d.%d.%d]" % tuple(ip) for ip in ips] + [b"[127.0.0.1]", b"[0.0.0.0]", b"[10.9.8.7]", b"[127.0.0.1", b"[127.0.0.1]x", b"[383.0.0.257]", b"[127.0.0.01]", b"[1.2.3]", b"[]", b"[127.0.0.1]]",
+                                                                 b"[18446744073709551743.0.0.1]", b"[.0.0.1]", b"[127.0.0.1.]"]
+    args = []
+    for _ in range(1500 if ck.thorough else 400):
+        k = rng.random()
+        if k < 0.45: a = gen_addr(rng)
+        elif k < 0.8:
+            u = rng.choice([b"joe", b"a@b", b"\"q\"", b"x\\@y", b""]); a = rng.choice([b"<", b"", b"<@r.example,@s:", b" : "]) + u + b"@" + rng.choice(lits) + rng.choice([b">", b"", b"> SIZE=1", b" "])
+        else: a = bytes(rng.choice(b"<>@:\" \\ab.[]1") for _ in range(rng.randint(0, 14)))
+        if b"\0" in a or b"\n" in a: continue
+        args.append((a, rng.choice([0, 1, 1]), rng.choice([b"lip.host", b"", b"x" * rng.choice([1, 890, 899, 900])])))
+    ipme_dots = ",".join("%d.%d.%d.%d" % tuple(ip) for ip in ips) or "-"
+    A, _, _ = vlib.run_lines(h, ["ap %s %d %s" % (vlib.hx(a), ok, vlib.hx(lh)) for a, ok, lh in args])
+    M, _, _ = vlib.run_lines(drv, ["ap %s %s %s" % (vlib.hx(lh) if ok else "N", ipme_dots, vlib.hx(a)) for a, ok, lh in args])
+    G, _, _ = vlib.run_lines(gen, ["ap %s %d %s %s" % (vlib.hx(a), ok, vlib.hx(lh), own) for a, ok, lh in args])
+    for (a, ok, lh), x, m, g in zip(args, A, M, G):
+        ck.evaluated(); ck.count("addrparse_fn"); ck.nontrivial(("ap", a, ok, lh))
+        xm = "N" if x == "F" else (x[2:] if x.startswith("S ") else x)
+        if x.startswith("S ") and xm == "-": xm = ""
+        obj = dict(kind="input", component="qmail-smtpd addrparse()", arg=a.decode("latin1"), liphostok=ok, liphost=lh.decode("latin1")[:40], own_addresses=ipme_dots, observed=x[:200], model=m[:200], generated=g[:200])
+        if xm != (m if m != "-" else ""): mism.append(obj)
+        elif x != g: mism.append(dict(obj, kind="translator", what="generated addrparse() and C addrparse() disagree"))
 
 def main():
     ck = vlib.Check(PID, "proof")
@@ -63,6 +99,7 @@ def main():
     ml, _, _ = vlib.run_lines(drv, ["sess %s %s %s" % (cfg_args(c), vlib.hx(d), ",".join("%d:-" % e for e in ex)) for c, d, ex, _, _, _ in jobs])
     fails, mism = [], []
     import gen_common; gen_common.translator_selfcheck(ck, rb, mism)
+    addrparse_stream(ck, rb, drv, mism)
     # directed: an unreadable / truncated compiled extra list.  The lookup then fails; whatever the server answers,
     # a recipient whose domain is on no list must not get 250 and nothing may be handed to the queue for it.
     cm = dict(gen_cfg(rng), rcpthosts=[b"ok.dom"], morercpthosts=[b"more.dom", b".more.dom"], badmailfrom=None, relayclient=None, databytes=0, localiphost=None)
